@@ -26,6 +26,7 @@ type SpecEnv struct {
 	li      *loopInfo
 	pkg     *types.Package
 	at      *ssa.BasicBlock // program point for resolving Go variable names (loop header)
+	stepOld bool            // `step` clause: old() is the loop-head state of the current iteration
 	posHint token.Pos       // where Go type expressions written in the contract are evaluated
 }
 
@@ -172,6 +173,14 @@ func (env *SpecEnv) eval(e *Expr) *Value {
 		}
 		n := *env
 		n.cur = env.old
+		if env.stepOld {
+			// `step` clause of a loop: old(e) is e at the head of the current iteration; variables
+			// denote their loop-head values (phis are read without the back-edge override)
+			saved := env.fr.phiOv
+			env.fr.phiOv = nil
+			defer func() { env.fr.phiOv = saved }()
+			return n.eval(e.Args[0])
+		}
 		if env.fr != nil && env.at != nil {
 			// inside a loop invariant: parameters named in old(...) denote their entry values
 			vs := map[string]*Value{}
@@ -1009,6 +1018,16 @@ func (env *SpecEnv) call(e *Expr) *Value {
 			specFail("locked: no monitor %s.%s", structName(derefType(sv)), args[1].Name)
 		}
 		return scalar(tBool, x.heldTerm(env.cur, m, sv.P.Base))
+	case "athead":
+		// athead(N, expr): expr in the state at the head of the current iteration of the enclosing loop N
+		n := mustInt(args[0])
+		li := env.loopOf(n)
+		if li.headState == nil {
+			specFail("athead(%d, ..): loop %d is not being executed here", n, n)
+		}
+		ne := *env
+		ne.cur = li.headState
+		return ne.eval(args[1])
 	case "ncalls":
 		// ncalls(F): how many times F has been called so far (static calls)
 		n := exprTypeName(args[0])
